@@ -357,7 +357,7 @@ def run(ctx):
             ctx.violations[k] = ("replayed case still fails", payload)
         shutil.rmtree(scratch, ignore_errors=True)
         return ctx.finish(RULE, False, [])
-    total = 30000 if ctx.thorough else 1280
+    total = 16000 if ctx.thorough else 1280
     infra = core.hypothesis_search(ctx, "pyv.c10", total)
     scratch = core.make_scratch("C10", "kf")
     check_literals(ctx, scratch)
